@@ -95,6 +95,16 @@ def check_code(oc):
               attr, op.name, pos, where),
                       "%s@%d (%s op of block %s) -> %s@%d" % (
                           op.name, op.index, pos, b.id, t.name, t.index)))
+      if (i < nb - 1 and op.no_next() and
+          op.name != "JUMP_BACKWARD_NO_INTERRUPT"):
+        # a *basic* block is straight-line: nothing can follow an
+        # instruction that never falls through (return / raise / reraise /
+        # unconditional jump).  The one documented exception is the
+        # JUMP_BACKWARD_NO_INTERRUPT kept inside merged SEND blocks.
+        bad.append(("instruction-after-non-fallthrough-op-in-block:" + op.name,
+                    "%s@%d is followed by %s@%d in block %s" % (
+                        op.name, op.index, b.code[i + 1].name,
+                        b.code[i + 1].index, b.id)))
       if op.has_known_jump() and op.target is None:
         bad.append(("unresolved-jump:" + op.name, "%s@%d" % (op.name,
                                                               op.index)))
@@ -221,6 +231,18 @@ FIXED = [
     "def f():\n  x = yield from g()\n  return (yield x)\n",
     "lambda: (yield)\n",
     "class A:\n  def f(self):\n    return super().f()\n  x = [q for q in range(3)]\n",
+    # generators / coroutines without any control flow
+    "def g():\n  yield 1\n", "async def c():\n  return 1\n",
+    "async def ag():\n  yield 1\n", "def g2(x):\n  y = yield x\n  return y\n",
+    "async def c2(x):\n  await x\n",
+    # handlers that bind the exception, end in an if, and have a finally
+    "def f(x):\n  try:\n    g()\n  except E as e:\n    if x:\n      h(e)\n  finally:\n    k()\n",
+    "def f(x):\n  try:\n    return g()\n  except (A, B) as e:\n    if x:\n      return e\n  finally:\n    k()\n  return 0\n",
+    "def f(x):\n  for i in x:\n    try:\n      g(i)\n    except E as e:\n      if i:\n        continue\n    finally:\n      k()\n",
+    "async def f(a, b):\n  async for x in a:\n    pass\n  async for y in b:\n    pass\n",
+    "def f(x):\n  try:\n    pass\n  except A:\n    pass\n  except B as e:\n    raise\n  else:\n    return 1\n  finally:\n    pass\n",
+    "def f(x):\n  with a as b:\n    try:\n      return b\n    except E as e:\n      if x: raise\n",
+    "def f():\n  while True:\n    try:\n      break\n    except E as e:\n      if e: continue\n    finally:\n      pass\n",
 ]
 
 
